@@ -7,7 +7,7 @@ import itertools
 import re
 from typing import Any, Callable, Iterable, Iterator
 
-from ..astutil import (ERROR_CLASSES, Locals, call_name, calls_in, cfg_of, constructs_error, local_names, names_in, norm, receivers, region, resolved_text,
+from ..astutil import (ERROR_CLASSES, Locals, anon, call_name, calls_in, cfg_of, constructs_error, local_names, names_in, norm, receivers, region, resolved_text,
                        stmt_of, where)
 from ..cfg import CFG, ENTRY, EXIT, walk_own
 from ..core import Report
@@ -15,18 +15,24 @@ from ..core import Report
 LEVEL = ("structural clauses on the region of merge_properties / _process_properties / _process_models, decided on paths (small symbolic "
          "execution over isinstance atoms, statement CFG), never on statement shape (a helper that is handed the classes it tests, that "
          "builds a result from arguments it does not test, or that is a predicate over isinstance tests is executed as part of each "
-         "caller, with the classes of that call; a loop over a written-out sequence is unrolled): every merge function dispatches symmetrically in "
+         "caller, with the classes of that call; a function that is handed a constant - a class, a record of strategies with its lambdas - is "
+         "judged once for each constant, with record fields, constant tuples and lambda calls folded; a loop over a written-out sequence, "
+         "also one held in a module constant, is unrolled): every merge function dispatches symmetrically in "
          "its two arguments, the class that is discarded at a merge site is the wider one (Any > number/string > integer > enum), the "
          "smaller enum wins and both subset directions are tried, incompatible pairs end in an error, the enum subset decision looks at "
-         "values; requiredness is a disjunction, inline members' `required` lists are unioned on every path and reach every inserted "
+         "values (what is compared is evaluated abstractly for two arguments of the enum class); requiredness is a disjunction, inline members' `required` lists are unioned on every path and reach every inserted "
          "property; all members contribute (Reference and inline, required and optional properties of a parent); parent properties are "
-         "not mutated; every model of a round is processed, re-queued or reported, self-reference is diverted (separator-anchored test). "
+         "not mutated; every model of a round is processed, re-queued or reported, the error recorded for a re-queued model is dropped on "
+         "every path between two rounds and not before the report, self-reference is diverted (separator-anchored test). "
          "Every value that can reach `default=` of a merged copy is None, the copy's own default or the override's default converted "
          "by the merged property, and a conversion error is returned before the copy is made; get_imports / get_lazy_imports are called "
          "for each element of an unfiltered iteration over all collected properties on every path of the iteration; no validator of "
          "Schema moves allOf away from its sibling keywords on a path on which the schema has a type (frozen exception: no type). "
-         "The allOf loop, the building loop, the insertions and the promotion of inherited properties are found by what they do, in "
-         "_process_properties, a nested function or a helper that is handed its state; variables by role, never by name.")
+         "Every store into the mapping of collected properties is dominated by a comparison of python names with everything collected. "
+         "The allOf loops (one for both kinds of member or one for each, told apart by a decision or by a filter), the building loop, the "
+         "insertions and the promotion of inherited properties are found by what they do, in _process_properties, a nested function or a "
+         "helper that is handed its state or hands back its results; variables by role (alias classes over closures, arguments and "
+         "returned tuples), never by name.")
 
 # the order of the property statement: integer over number, formatted string over string, enum over its base type, anything over Any
 WIDTH = {"AnyProperty": 3, "FloatProperty": 2, "StringProperty": 2, "IntProperty": 1}
@@ -582,10 +588,11 @@ def _not_wider(cb: frozenset[str] | None, co: frozenset[str] | None) -> bool:
 _SUBSET_OPS = (ast.LtE, ast.Lt, ast.GtE, ast.Gt)
 
 
-def _subset_direction(ix: Any, mf: MergeFn, e: ast.AST, depth: int = 2) -> tuple[str, str, ast.expr, ast.expr] | None:
-    """(smaller, larger, what is compared for the smaller, for the larger) when e - written in terms of the two arguments - decides whether
-    what one argument has is contained in what the other has: `A(a) <= A(b)`, `A(a).issubset(A(b))`, or the call of a helper of the
-    region that is handed (a, b) and compares so itself"""
+def _subset_direction(ix: Any, mf: MergeFn, e: ast.AST, depth: int = 2) -> tuple[str, str, list[tuple[ast.expr, ast.expr]]] | None:
+    """(smaller, larger, [(what is compared for the smaller, for the larger)]) when e - written in terms of the two arguments - decides
+    whether what one argument has is contained in what the other has: `A(a) <= A(b)`, `A(a).issubset(A(b))`, or the call of a helper of
+    the region that is handed (a, b) and compares so itself (a helper that compares in more than one place - one for each kind of
+    argument - gives all of them; they must agree on the direction)"""
     p = set(mf.params)
 
     def one(x: ast.AST) -> str | None:
@@ -600,22 +607,22 @@ def _subset_direction(ix: Any, mf: MergeFn, e: ast.AST, depth: int = 2) -> tuple
         pair = (e.func.value, e.args[0]) if e.func.attr == "issubset" else (e.args[0], e.func.value)
     if pair is not None:
         small, large = one(pair[0]), one(pair[1])
-        return (small, large, pair[0], pair[1]) if small and large and small != large else None
+        return (small, large, [pair]) if small and large and small != large else None
     if isinstance(e, ast.Call) and depth > 0 and sum(1 for a in e.args if one(a)) >= 2:
         for h in region(ix, mf.f, 1):
             if h.name == call_name(e).rsplit(".", 1)[-1] and h is not mf.f:
                 bound = _bind_args(h.node, e)
-                for c in (c for c in ast.walk(h.node) if bound is not None and isinstance(c, (ast.Compare, ast.Call))):
-                    d = _subset_direction(ix, mf, _Subst(bound).visit(copy.deepcopy(c)), 0)  # type: ignore[arg-type]
-                    if d is not None:
-                        return d
+                found = [d for c in ast.walk(h.node) if bound is not None and isinstance(c, (ast.Compare, ast.Call))
+                         for d in [_subset_direction(ix, mf, _Subst(bound).visit(copy.deepcopy(c)), 0)] if d is not None]  # type: ignore[arg-type]
+                if found and len({(d[0], d[1]) for d in found}) == 1:
+                    return found[0][0], found[0][1], [pr for d in found for pr in d[2]]
     return None
 
 
-def _subset_tests(ix: Any, mf: MergeFn) -> dict[str, tuple[str, str, ast.expr, ast.expr]]:
+def _subset_tests(ix: Any, mf: MergeFn) -> dict[str, tuple[str, str, list[tuple[ast.expr, ast.expr]]]]:
     """the tests of the function (as its paths see them: locals, constants and lambdas resolved) that decide containment between what the
     two arguments have, by the key under which a path records their outcome"""
-    out: dict[str, tuple[str, str, ast.expr, ast.expr]] = {}
+    out: dict[str, tuple[str, str, list[tuple[ast.expr, ast.expr]]]] = {}
     for _, r in mf.runs:
         for key, e in r.atoms.items():
             if key not in out:
@@ -650,6 +657,11 @@ def run(rep: Report, ctx: Any) -> str:
                       "next to it (properties, required) on a path on which the schema has a `type` - such a schema is made nullable through "
                       "its type - nor, for a schema without `type`, on any path at all")
 
+    rep.rule("R15.9", "no property of a member is displaced by another one: every store into the mapping that collects the properties of the "
+                      "composed model - of a new, an inherited or a merged property alike - comes, on every path, after the stored property has been "
+                      "compared by python name with the properties collected so far (two properties under one python name are one attribute of the "
+                      "generated class: one member's property is neither accepted nor emitted)")
+
     mp = ix.func("merge_properties.merge_properties")
     _merge_rules(rep, ctx, mp)
     _required_and_members(rep, ctx, cfgs)
@@ -657,6 +669,7 @@ def run(rep: Report, ctx: Any) -> str:
     _parents_first(rep, ctx, cfgs)
     _merged_default(rep, ctx, cfgs)
     _imports_of_every_property(rep, ctx, cfgs)
+    _python_names_compared(rep, ctx, cfgs)
     _composed_schema_stays_whole(rep, ctx, cfgs)
     return LEVEL
 
@@ -1026,7 +1039,7 @@ def _enum_sibling(rep: Report, ctx: Any, mf: MergeFn, kind: str) -> None:
     rep.require(all(kk.values()), f"{name} tests both arguments for {kind}")
     tests = _subset_tests(ix, mf)
     rep.require(tests, f"subset test between the two enums in {name}")
-    direction = {key: (small, large) for key, (small, large, _, _) in tests.items()}
+    direction = {key: (small, large) for key, (small, large, _) in tests.items()}
     a, b = mf.params
     rep.check({(a, b), (b, a)} <= set(direction.values()), "R15.1", f"{name}::both-directions", "only one subset direction is tried", where(mf.f, mf.f.node),
               lhs=sorted(direction), rhs="a <= b and b <= a")
@@ -1083,13 +1096,19 @@ def _enum_sibling(rep: Report, ctx: Any, mf: MergeFn, kind: str) -> None:
     it.cur_mod, it.record_nodes = mf.f.module, False
     names_only = []
     try:
-        for key, (_, _, small_e, large_e) in sorted(tests.items()):
-            for side in (small_e, large_e):
+        for key, (_, _, pairs) in sorted(tests.items()):
+            n_evaluated = 0
+            for side in (x for pr in pairs for x in pr):
                 av = it.ev(side, dict(env))
                 el = av.elem if av is not None else None
+                if av is None or not av.types or (el is not None and not el.types and not el.labels and el.tup is None):
+                    continue  # nothing an argument of this class can have (the comparison written for the other kind of enum)
+                n_evaluated += 1
                 # elements must carry the member's value: (name, value) pairs or the values themselves, not the generated names alone
                 if not (el is not None and ((el.tup is not None and len(el.tup) == 2) or bool(set(el.labels) - {"WORD"}))):
                     names_only.append(f"{norm(side)[:60]} in {key[:80]}")
+            if not n_evaluated:
+                names_only.append(f"nothing is known about what {key[:80]} compares")
     finally:
         it.cur_mod, it.record_nodes = saved
     rep.check(not names_only, "R15.1", f"{name}::compares-values",
@@ -1858,6 +1877,88 @@ def _imports_of_every_property(rep: Report, ctx: Any, cfgs: dict[str, CFG]) -> N
 
 
 # ======================================================================================================================
+# R15.9: a stored property has been compared by python name with the collected ones
+# ======================================================================================================================
+
+def _python_names_compared(rep: Report, ctx: Any, cfgs: dict[str, CFG]) -> None:
+    ix = ctx.py
+    pp = ix.func("model_property._process_properties")
+    nested = [h for h in ix.all_functions if h.parent is not None and _encloses(pp, h)]
+    funcs = list({f.qual: f for f in [*region(ix, pp), *nested]}.values())
+    _aliases(pp, funcs)
+    by_name: dict[str, Any] = {f.name: f for f in funcs}
+    # the mapping (as _process_properties calls it) and the statements that store into it
+    stores: list[tuple[Any, ast.stmt]] = []
+    storage: set[str] = set()
+    for g in funcs:
+        mine = local_names(g.node) if g.qual != pp.qual else set()
+        for n in _own_nodes(g.node):
+            if _is_store(n, mine):
+                tg = n.targets if isinstance(n, ast.Assign) else [n.target]  # type: ignore[attr-defined]
+                storage |= _in_caller(pp, g, {t.value.id for t in tg if isinstance(t, ast.Subscript) and isinstance(t.value, ast.Name)})
+                stores.append((g, n))  # type: ignore[arg-type]
+    rep.require(stores and storage, "the mapping the properties of the composed model are collected in")
+
+    def compares_names(nodes: Iterable[ast.AST], depth: int = 1) -> bool:
+        """a comparison of python names is made by these nodes, or by a function of the region they call"""
+        for n in nodes:
+            for x in ast.walk(n):
+                if isinstance(x, ast.Compare) and any(isinstance(a, ast.Attribute) and a.attr == "python_name" for a in ast.walk(x)):
+                    return True
+                if isinstance(x, ast.Call) and depth > 0:
+                    h = by_name.get(call_name(x).rsplit(".", 1)[-1])
+                    if h is not None and compares_names([h.node], depth - 1):
+                        return True
+        return False
+
+    def checks(g: Any, depth: int = 1) -> list[ast.stmt]:
+        """the statements of g that compare python names across everything collected so far: a loop over the mapping (all of it) whose body
+        compares, a statement with such a comprehension, or the call of a function of the region that has one"""
+        out: list[ast.stmt] = []
+        lc = Locals(g.node)
+        mapping = _seen_as(pp, g, storage)
+        for n in _own_nodes(g.node):
+            if isinstance(n, (ast.For, ast.AsyncFor)) and _unfiltered_sources(n.iter, lc) & mapping and compares_names(n.body):
+                out.append(n)
+            elif isinstance(n, (ast.ListComp, ast.SetComp, ast.GeneratorExp, ast.DictComp)) and \
+                    any(_unfiltered_sources(c.iter, lc) & mapping for c in n.generators):
+                st = stmt_of(g.node, n)
+                if st is not None and compares_names([n] + [x for x in walk_own(st) if isinstance(x, ast.Compare) and any(y is n for y in ast.walk(x))]):
+                    out.append(st)
+            elif isinstance(n, ast.Call) and depth > 0:
+                h = by_name.get(call_name(n).rsplit(".", 1)[-1])
+                if h is not None and h.qual != g.qual and checks(h, depth - 1):
+                    st = stmt_of(g.node, n)
+                    if st is not None:
+                        out.append(st)
+        return out
+
+    def unchecked(g: Any, at: ast.stmt, depth: int = 1) -> list[tuple[Any, ast.stmt]]:
+        """where the statement (a store, or the call of the function that stores) is reached without a comparison before it"""
+        cs = checks(g)
+        if any(c is not at and cfg_of(g, cfgs).is_dominated_by(at, lambda n, c=c: n is c) for c in cs):
+            return []
+        calls = [(h, stmt_of(h.node, c)) for h in funcs if h.qual != g.qual for c in _own_nodes(h.node)
+                 if isinstance(c, ast.Call) and call_name(c).rsplit(".", 1)[-1] == g.name]
+        if depth == 0 or not calls or g.qual == pp.qual:
+            return [(g, at)]
+        return [bad for h, st in calls if st is not None for bad in unchecked(h, st, depth - 1)] if not cs else [(g, at)]
+
+    n_checked = 0
+    for g, st in stores:
+        tg = st.targets if isinstance(st, ast.Assign) else [st.target]  # type: ignore[attr-defined]
+        key = next((t.slice for t in tg if isinstance(t, ast.Subscript)), None)
+        bad = unchecked(g, st)
+        n_checked += 0 if bad else 1
+        rep.check(not bad, "R15.9", f"{g.name}::python-name-compared-before-store[{anon(key, local_names(g.node)) if key is not None else ''}]",
+                  "a property is stored in the composed model on a path on which it has not been compared by python name with the properties "
+                  "collected so far: a redefined (merged) or inherited property may take the python name of another member's property, which "
+                  "then is neither accepted nor emitted by the composed class", where(*bad[0]) if bad else where(g, st),
+                  lhs=[f"{h.name}: {norm(x)[:60]}" for h, x in bad], rhs="dominated by a comparison with every collected property's python_name")
+    rep.floor("stores_after_python_name_comparison", n_checked, 1)
+
+
+# ======================================================================================================================
 # R15.8: the schema layer does not take a composition apart
 # ======================================================================================================================
 
@@ -2016,6 +2117,44 @@ def _parents_first(rep: Report, ctx: Any, cfgs: dict[str, CFG]) -> None:
               "a model whose parent is not processed yet is not re-queued (or its error of the last round is not reported)", where(pm, pl),
               lhs={"requeue": [norm(c) for c in requeues], "recorded_in": sorted(recorded), "reported": sorted(feeds), "every_model_accounted_for": every},
               rhs="<next round>.append(<model>) and (<model>, <error>) recorded in a list that reaches _process_model_errors, on every path")
+
+    # an error recorded for a model that is also queued for the next round is provisional: the next round decides anew.  The list it is
+    # recorded in starts every round empty (else a model that succeeds when it is retried is still reported - and removed), and is not
+    # emptied between the last round and the report
+    inside = {id(x) for x in ast.walk(pl)}
+    round_ends = [n for n in cfg.nodes if isinstance(n, ast.stmt) and id(n) not in inside and
+                  any(p_ is pl or id(p_) in inside for p_ in cfg.pred.get(n, ()))]
+    sink_st = [stmt_of(pm.node, c) for c in sink]
+    provisional = sorted({r for r, c in records if any(
+        q is not None and st is not None and (q in cfg.reachable_from(st, avoid=lambda n: n is pl) or st in cfg.reachable_from(q, avoid=lambda n: n is pl))
+        for st in [stmt_of(pm.node, c)] for q in req_st)})
+    stale, lost = [], []
+    for lst in provisional:
+        def resets(n: object, lst: str = lst) -> bool:
+            if isinstance(n, (ast.Assign, ast.AnnAssign)) and n.value is not None:
+                tg = n.targets if isinstance(n, ast.Assign) else [n.target]
+                if any(norm(t) == lst for t in tg) and lst not in names_in(n.value):
+                    return True  # bound to something that does not contain what it held
+                return any(isinstance(t, ast.Subscript) and norm(t.value) == lst and isinstance(t.slice, ast.Slice) and
+                           t.slice.lower is None and t.slice.upper is None for t in tg) and isinstance(n.value, (ast.List, ast.Tuple)) and not n.value.elts
+            if isinstance(n, ast.Expr) and isinstance(n.value, ast.Call) and isinstance(n.value.func, ast.Attribute):
+                return n.value.func.attr == "clear" and norm(n.value.func.value) == lst
+            if isinstance(n, ast.Delete):
+                return any(isinstance(t, ast.Subscript) and norm(t.value) == lst for t in n.targets)
+            return False
+
+        for e_ in round_ends:
+            if not resets(e_) and pl in cfg.reachable_from(e_) and not cfg.every_path_passes(e_, pl, resets):
+                stale.append(lst)
+            after_last = cfg.reachable_from(e_, avoid=lambda n: n is pl)
+            if any(resets(n) and any(s_ in cfg.reachable_from(n, avoid=lambda m: m is pl) for s_ in sink_st) for n in after_last):
+                lost.append(lst)
+    rep.check(not stale and not lost, "R15.4", "_process_models::retried-model-error-is-provisional",
+              "the error of a model that is queued for another round is kept beyond that round (the list it is recorded in is not emptied on "
+              "every path from the end of one round to the start of the next): a child declared before its parent is processed when it is "
+              "retried and is reported and removed all the same - or the list is emptied before the last round's errors are reported",
+              where(pm, pl), lhs={"recorded_with_requeue": provisional, "kept_across_rounds": sorted(set(stale)), "emptied_before_report": sorted(set(lost))},
+              rhs="emptied between two rounds on every path, never between the last round and _process_model_errors")
 
     # the self-reference decision: the test (here or in a helper it calls) that looks at the end of the reference
     def ends_calls(e: ast.AST) -> list[tuple[Any, ast.Call]]:
